@@ -532,10 +532,11 @@ def lazy_cases(ctx, rnd, np, nlazy, direct, scratch=None):
     cases = []
     g = Gen(rnd, np)
     # more than MAX_ITER batches: with and without extra entries
-    for tag, with_extra in (("x", True), ("n", False)):
+    for tag, with_extra in (("x", True), ("n", False), ("e", "array-free")):
         x = {"a": g.leaf(1003)}
         lz = D.LazyCall(lambda d: {k: 2 * v + 1 for k, v in d.items()}, x)
-        extra = {"w": g.leaf(1003)} if with_extra else {}
+        # "array-free": a non-empty extra that holds only empty containers (stopped the iteration after 1000 batches before /repo 81b15cd)
+        extra = {"w": g.leaf(1003)} if with_extra is True else ({"t": {}, "u": []} if with_extra else {})
         for k, v in extra.items():
             lz[k] = v
         pieces = [D.data_to_numpy(p) for p in lz.as_dataset(1)]
